@@ -132,6 +132,34 @@ def describe(intr, st, it):
     return None
 
 
+def param_name(fi, k):
+    """Name of the k-th positional parameter of function fi (invariants refer to parameters by position, so a
+    renamed parameter does not break them)."""
+    a = fi.node.args
+    names = [x.arg for x in list(a.posonlyargs) + list(a.args)]
+    return names[k]
+
+
+def returned_name(fi):
+    """The local variable the function returns (`return <name>`), if it returns exactly one."""
+    names = {n.value.id for n in ast.walk(fi.node) if isinstance(n, ast.Return) and isinstance(n.value, ast.Name)}
+    if len(names) != 1:
+        raise Unsupported("cannot identify the returned local of " + fi.qualname)
+    return names.pop()
+
+
+def name_in(fi, pred):
+    """The unique local Name selected by `pred(node)` over the statements of fi (role-based naming of locals)."""
+    names = set()
+    for n in ast.walk(fi.node):
+        r = pred(n)
+        if r:
+            names.add(r)
+    if len(names) != 1:
+        raise Unsupported("cannot identify a local by its role in " + fi.qualname)
+    return names.pop()
+
+
 class LoopCtx:
     def __init__(self, eng, fi, ordinal, seq, node):
         self.eng = eng
